@@ -8,24 +8,24 @@
    AS PARSED on this run.  This file contains only the property theorems. *)
 From Coq Require Import List Arith Bool String.
 Import ListNotations.
-Require Import TL.Model.Core TL.Model.RoutineAst TL.Proofs.RoutineAst.
+Require Import TL.Model.Core TL.Model.CoreLate TL.Model.RoutineAst TL.Proofs.RoutineAst.
 Require Import TLRun.GenRoutineProgs.
 
 Theorem RAX_unm_agree : progs_agree_dir DU translated = true.
 Proof. vm_compute. reflexivity. Qed.
 
 (* Core's steps are the interpretation of the source's bodies, at every composite head *)
-Theorem RAX_unm_src : forall rt E n t x h, head_of E t = Some h -> guard_u rt E (unm rt E n) t x = true ->
+Theorem RAX_unm_src : forall rt E n t x h, head_of E t = Some h -> guard_u E t = true ->
   run rt E (unm rt E n) t (src_prog translated DU h) x = unm rt E (S n) t x.
 Proof. intros rt E. exact (unm_step_src rt E translated RAX_unm_agree). Qed.
 
 (* class by class *)
-Theorem RAX_unm_iterable_src : forall rt E n k a x, guard_u rt E (unm rt E n) (TSeq k a) x = true ->
+Theorem RAX_unm_iterable_src : forall rt E n k a x,
   run rt E (unm rt E n) (TSeq k a) (src_prog translated DU HIterable) x = unm rt E (S n) (TSeq k a) x.
-Proof. intros. rewrite (src_prog_expected_dir _ DU HIterable RAX_unm_agree). apply unm_iterable; assumption. Qed.
-Theorem RAX_unm_mapping_src : forall rt E n k kt vt x, guard_u rt E (unm rt E n) (TMap k kt vt) x = true ->
+Proof. intros. rewrite (src_prog_expected_dir _ DU HIterable RAX_unm_agree). apply unm_iterable. Qed.
+Theorem RAX_unm_mapping_src : forall rt E n k kt vt x,
   run rt E (unm rt E n) (TMap k kt vt) (src_prog translated DU HMapping) x = unm rt E (S n) (TMap k kt vt) x.
-Proof. intros. rewrite (src_prog_expected_dir _ DU HMapping RAX_unm_agree). apply unm_mapping; assumption. Qed.
+Proof. intros. rewrite (src_prog_expected_dir _ DU HMapping RAX_unm_agree). apply unm_mapping. Qed.
 Theorem RAX_unm_tuple_src : forall rt E n ts x,
   run rt E (unm rt E n) (TTuple ts) (src_prog translated DU HTuple) x = unm rt E (S n) (TTuple ts) x.
 Proof. intros. rewrite (src_prog_expected_dir _ DU HTuple RAX_unm_agree). apply unm_tuple. Qed.
@@ -35,12 +35,12 @@ Proof. intros. rewrite (src_prog_expected_dir _ DU HStruct RAX_unm_agree). eappl
 Theorem RAX_unm_union_src : forall rt E n ts x,
   run rt E (unm rt E n) (TUnion ts) (src_prog translated DU HUnion) x = unm rt E (S n) (TUnion ts) x.
 Proof. intros. rewrite (src_prog_expected_dir _ DU HUnion RAX_unm_agree). apply unm_union. Qed.
-(* outside the hashing guard the body as parsed raises TypeError and Core's step does not *)
-Theorem RAX_unm_set_outside_src : forall rt E n k a x, (k = KSet \/ k = KFrozenset) ->
-  guard_u rt E (unm rt E n) (TSeq k a) x = false ->
+(* where hash-as-produced and the earlier "convert every member, then hash" differ, the body as parsed raises TypeError
+   and the earlier formulation of Core's step (Model/CoreLate.v) did not *)
+Theorem RAX_unm_set_late_outside_src : forall rt E n k a x, seq_parts rt (unm rt E n) k a x = true ->
   run rt E (unm rt E n) (TSeq k a) (src_prog translated DU HIterable) x = Raise EType /\
-  unm rt E (S n) (TSeq k a) x <> Raise EType.
-Proof. intros. rewrite (src_prog_expected_dir _ DU HIterable RAX_unm_agree). apply unm_iterable_outside; assumption. Qed.
+  CoreLate.is_other (seq_late rt (unm rt E n) k a x) = true.
+Proof. intros. rewrite (src_prog_expected_dir _ DU HIterable RAX_unm_agree). apply unm_iterable_late_outside; assumption. Qed.
 
 Print Assumptions RAX_unm_agree.
 Print Assumptions RAX_unm_src.
@@ -49,4 +49,4 @@ Print Assumptions RAX_unm_mapping_src.
 Print Assumptions RAX_unm_tuple_src.
 Print Assumptions RAX_unm_struct_src.
 Print Assumptions RAX_unm_union_src.
-Print Assumptions RAX_unm_set_outside_src.
+Print Assumptions RAX_unm_set_late_outside_src.
